@@ -229,6 +229,18 @@ def run_cell(case: Dict[str, Any]) -> Dict[str, Any]:
                             raise
         finally:
             obs["t_exit1"] = time.time()
+        # the task's cancel-scope stack must be intact after leaving the context: an
+        # enclosing scope must exit cleanly and a second client must work in the same task
+        if obs["entered"]:
+            try:
+                with anyio.fail_after(20):
+                    probe = StdioClient(StdioParameters(command=sys.executable, args=[os.path.join(d, "child.py"), "well_behaved", marker + "p"]))
+                    async with probe:
+                        r2, w2 = probe.get_streams()
+                        v2 = await send_message(r2, w2, "ping", timeout=5)
+                        obs["second_client"] = ("return", v2)
+            except BaseException as e:  # noqa
+                obs["second_client"] = ("raise", f"{type(e).__name__}: {str(e)[:160]}")
         pt = obs.pop("_pt", None)
         if pt is not None:
             pt.cancel()
@@ -293,6 +305,13 @@ def judge(case: Dict[str, Any], obs: Dict[str, Any]) -> List[Tuple[str, str, str
     if obs.get("first") and obs["first"][0] == "return" and beh in ("exit_at_0", "exit_at_1", "never_reads", "close_stdout", "close_stdin", "flood"):
         if not (isinstance(obs["first"][1], dict) and obs["first"][1].get("echo") == "ping"):
             f.append(("request-to-dead-child-got-a-fabricated-result", f"{beh}: {obs['first']!r}", "logic"))
+    if obs.get("exit_exc") and not obs["exit_exc"].startswith("CancelledError"):
+        f.append(("leaving-the-context-raised-an-unrelated-exception", f"{beh}/{exit_path}/{moment}: {obs['exit_exc']}", "logic"))
+    if obs.get("run_exc"):
+        f.append(("leaving-the-context-raised-an-unrelated-exception", f"{beh}/{exit_path}/{moment}: escaped the event loop: {obs['run_exc']}", "logic"))
+    sc = obs.get("second_client")
+    if sc is not None and sc[0] != "return":
+        f.append(("client-unusable-after-a-previous-context-in-the-same-task", f"{beh}/{exit_path}/{moment}: second client: {sc[1]}", "logic"))
     if exit_path == "exception" and not obs.get("body_exc"):
         f.append(("exception-in-body-swallowed", f"{beh}/{moment}: {obs.get('exit_exc')}", "logic"))
     return f
